@@ -141,6 +141,7 @@ func C02(c *Ctx) {
 	}
 
 	c.rootRule("C02-7")
+	c.methodIterationRule("C02-8")
 }
 
 // rootRule: resolveExpr is always started at the root of the source tree (shared by C02 and C06).
